@@ -13,11 +13,13 @@ BATCHES = {
         ("reward", 6, 80, {}),
         ("did", 6, 120, {}),
         ("scarce", 8, 90, {}),
+        ("super", 8, 100, {}),
     ],
     "thorough": [
         ("reward", 60, 120, {}),
         ("did", 60, 200, {}),
         ("scarce", 80, 140, {}),
+        ("super", 80, 160, {}),
         ("pay", 60, 140, {}),
         ("life", 80, 140, {}),
         ("auth", 80, 140, {}),
@@ -247,7 +249,7 @@ def selection_run(tier, seed, use_cache=True):
         return res
 
 
-FAMILY = ["C02", "C04", "C05", "C06", "C07", "C08", "C09", "C10", "C11", "C12", "C13", "C14", "C15", "C16", "C17"]
+FAMILY = ["C02", "C04", "C05", "C06", "C07", "C08", "C09", "C10", "C11", "C12", "C13", "C14", "C15", "C16", "C17", "C20"]
 
 
 def run_property(pid, tier, seed, use_cache=True):
